@@ -31,7 +31,7 @@ OPS = ["trail", "comments", "blanks", "case-upper", "case-lower", "case-mixed", 
 
 def plan(tier):
     if tier == "quick":
-        return {"ncases": 1600, "nshards": 16, "budget_s": 75, "floor": 60000, "stall_s": 60}
+        return {"ncases": 1600, "nshards": 16, "budget_s": 75, "floor": 40000, "stall_s": 60}
     return {"ncases": 16000, "nshards": 16, "budget_s": 1800, "floor": 1000000, "stall_s": 300}
 
 
